@@ -104,6 +104,47 @@ CLAIMED = {
          "bounds: 2 players x <=2 chunks x 3 control calls exhaustively, 1-3 players x <=3 chunks x 5 calls randomly. "
          "Trusted: TLC, pcal, harness/sched.py.",
          "DESIGN.md section 4 C17 and appendix A"),
+ "C05": ("spec/dsp/FilterAlg.tla + FilterAlgC05.tla (on Poly.tla, Filter.tla) + trace/FilterAlgTrace.tla",
+         "TLC model checking of the ZFilter algebra (operational operators with the equal-denominator shortcut, shift, "
+         "reciprocal-first power, substitution loops) against rational-function arithmetic compared by "
+         "cross-multiplication and the LTI system at rest + replay of every expression tree / pair / triple on real "
+         "ZFilter, CascadeFilter and ParallelFilter objects + TLC judgement of random deeper trees",
+         "Every tree of the grid (depth <= 2 over 12 atoms, 5 operators, scalars, powers -2..3, substitution) denotes its "
+         "rational function; field laws, eq/ne/hash coherence and the system identities on symbolic (linear-form) inputs "
+         "of length 5 are TLC invariants; every state is replayed with Fraction and int/dyadic coefficients and outputs are "
+         "compared exactly; random trees of depth 2-4 and longer runs are judged by TLC.",
+         "Filters are run only with int / dyadic-float coefficients (coefficients are formatted into source text); at "
+         "rest (memory None, zero 0); causal operands; no division by / negative power of / substitution of the zero "
+         "filter; linearize not covered. Trusted: TLC, LinForm, Fraction.",
+         "DESIGN.md section 4 C05"),
+ "C06": ("spec/dsp/FilterC06.tla (on Filter.tla) + FilterC06(Q|T).tla + trace/FilterC06Trace.tla",
+         "TLC model checking of a coefficient-stream-expression machine with per-use tee branches against the difference "
+         "equation over element-wise coefficient sequences + replay of every enumerated state on real filters fed from "
+         "counting sources + TLC-judged records of random larger runs",
+         "Every subset of the coefficients (including a0) of 6 shapes of order <= 2 replaced by finite, periodic or "
+         "constant streams, all pair sums / differences / products / scalings and depth-2 trees of 8 stream atoms: TLC "
+         "proves the library's coefficient arithmetic plus the generated generator produce the difference equation with "
+         "each stream's n-th value, that the run ends with the shortest stream or the input, and that every source is "
+         "read exactly n times after n outputs whatever the number of tee branches; every state is replayed on the real "
+         "code with linear-form samples and read counters compared after each output.",
+         "MaxLen 4/5 in M1/M2, <= 30 in M3; integer / dyadic stream values; excluded (guards): a Stream reused without "
+         "copy/thub, a0 streams containing 0, sums of filters sharing a non-trivial denominator, streams annihilated by a "
+         "zero scalar, all-zero and non-causal filters; end-of-run reads only bounded by n+1. Trusted: TLC, LinForm, the "
+         "counting source.",
+         "DESIGN.md section 4 C06"),
+ "C07": ("spec/dsp/Poly.tla + PolyC07.tla + trace/PolyTrace.tla",
+         "TLC model checking of an operational transcription of Poly (__add__/__mul__/__pow__/__call__, Horner register "
+         "machine with its loop invariant, composition, diff/integrate, Lagrange) against coefficient-wise definitions "
+         "and the ring / homomorphism / calculus / interpolation laws + replay of every state on real Poly objects + "
+         "TLC-judged recorded calls",
+         "Bounded-exhaustive refinement over Laurent polynomials with supports in -2..3, 6 coefficient values, 7 "
+         "evaluation points, exponents 0..4 and point sets of size 1..4 (9k states quick, 140k thorough, 11 invariants "
+         "incl. NoZeroStored and scheme independence); every state replayed through 5 construction routes comparing "
+         "dict(p.terms()), p(v) with both schemes, ==, !=, hash; larger random polynomials judged by TLC. Exact rational "
+         "arithmetic throughout, no tolerance.",
+         "Fraction/int operands; p(0) only without negative powers; p(q) with negative powers only for one-term q; "
+         "integrate only without an x^-1 term; M3 <= 8 terms, powers -6..10. Trusted: TLC, Fraction.",
+         "DESIGN.md section 4 C07"),
  "C08": ("spec/dsp/Blocks.tla + BlocksDef.tla + BlocksC08.tla + trace/BlocksTrace.tla (+ BlocksIdx.tla for Apalache)",
          "TLC model checking of the deque/idx machine of blocks/zero_pad against the hop-spaced-window definition + "
          "replay of every enumerated state on the real blocks / Stream.blocks / zero_pad + TLC judgement of recorded runs",
@@ -132,6 +173,42 @@ CLAIMED = {
          "paths of the code (1/ceil without window, 0.0-padded gain sum) compared with 1e-9(1+|exact|). Trusted: TLC, "
          "LinForm, dump parser.",
          "DESIGN.md section 4 C09"),
+ "C10": ("spec/dsp/Lpc.tla + LpcC10(Q|T).tla + trace/LpcTrace.tla",
+         "TLC model checking of the Levinson-Durbin and Gram-Schmidt (kcovar) machines against the Toeplitz / covariance "
+         "normal equations and energy identities in exact rational arithmetic + replay of every state on the real "
+         "functions + TLC judgement of recorded float results through the defining linear equations",
+         "All blocks and autocorrelation vectors of the grid are decided exactly by TLC (normal equations at every order, "
+         "error identity, kautocor minimises the residual energy, kcovar normal equations) and each is executed by the "
+         "real code at every intermediate order within 1e-9(1+|exact|) of the exact rationals; larger random inputs are "
+         "accepted only if TLC finds their normal-equation residuals and error identity vanishing to ~5e-10 relative.",
+         "blocks of length <= 5 over {-2..2}, orders <= 4 (M3 length <= 12, order <= 7); singular systems and kcovar "
+         "refusals outside the statement; the code computes in floats (absent powers read as 0.0), hence the tolerance; "
+         "numpy strategies out of scope. Trusted: TLC, fixed-point logging.",
+         "DESIGN.md section 4 C10"),
+ "C11": ("spec/dsp/Lpc.tla + LpcC11(Q|T).tla + trace/LpcTrace.tla",
+         "TLC model checking of the step-down (parcor) machine against the step-up recursion and Levinson on generated "
+         "autocorrelations, and of the Schur-Cohn verdict against pole locations of denominators built from rational "
+         "roots + replay on parcor / parcor_stable / levinson_durbin + TLC-judged higher-order runs",
+         "Inversion of step-up, the error product, the exception condition and stability <=> all poles strictly inside "
+         "the unit circle (for every gain; checked on the model, not assumed) are decided by TLC for every grid case; the "
+         "real code reproduces every yielded coefficient, exception and Boolean on those cases and on random orders <= 8.",
+         "ks in {+-1/2, +-1/3, 1/4, 0, 2, -3/2, +-1}^<=4; roots {0, +-1/2, 2/3, +-1, +-3/2} and four complex pairs, 6 "
+         "gains, order <= 4 (M3 <= 8); exact verdicts need Fraction coefficients; float compositions compared by the "
+         "1e-9 rule away from |k| = 1. Trusted: TLC, Fraction.",
+         "DESIGN.md section 4 C11"),
+ "C12": ("spec/dsp/FreqResp.tla + lib/CRat.tla + FreqRespC12(Quick|Thorough).tla + trace/FreqRespTrace.tla",
+         "TLC model checking over Gaussian rationals at w = m*pi/2 of the code-shaped evaluation (Horner with merged "
+         "powers, nan test, reduce mul/add, per-element mapping, register-shift FIR, left-to-right DFT sum) against the "
+         "transfer function and its time-domain consequences + replay of every state on the real objects + TLC-judged "
+         "random higher-order observations",
+         "TLC proves on the grid H(w) = sum b_k e^{-jwk} / sum a_k e^{-jwk}, product / sum across cascade / parallel, "
+         "steady-state scaling, DFT of the impulse response = H, DFT linearity and DC mean, nan where the denominator "
+         "vanishes; every state is replayed through several construction routes and all 9 container kinds; code floats "
+         "are compared with 1e-9 relative tolerance against exact lattice values >= 2.4e-7 apart.",
+         "Only frequencies that are multiples of pi/2 (agreement elsewhere is not decided); coefficients integers or "
+         "dyadic of magnitude <= 4, orders <= 3-4 exhaustively, <= 8 randomly; denominators non-zero at the probed "
+         "frequency or vanishing exactly at w = 0. Trusted: TLC, cmath.exp accurate to ~1e-15.",
+         "DESIGN.md section 4 C12"),
  "C14": ("spec/dsp/Windows.tla + WindowTable.tla + WindowsReg.tla + lib/TrigForm.tla + trace/WindowsTrace.tla",
          "TLC model checking of the two exec'd window templates and of the strategy-registration loop against the "
          "documented closed forms and contracts in exact canonical trigonometric forms + replay of every enumerated "
